@@ -15,6 +15,7 @@ import (
 	"sort"
 	"strconv"
 	"strings"
+	"time"
 
 	"github.com/go-openapi/strfmt"
 	"github.com/go-openapi/validate"
@@ -22,7 +23,7 @@ import (
 
 // hv describes a Go value for a helper call.
 type hv struct {
-	K string `json:"k"`           // nil bool str int..uint64 float32 float64 slice nilslice map nilmap ptr nilptr
+	K string `json:"k"`           // nil bool str int..uint64 float32 float64 slice nilslice map nilmap ptr nilptr opaque
 	V string `json:"v,omitempty"` // scalar literal; strings are hex encoded bytes (may be invalid UTF-8)
 	E string `json:"e,omitempty"` // element type of a slice
 	L []hv   `json:"l,omitempty"` // slice elements
@@ -71,6 +72,20 @@ var customRegistry = func() strfmt.Registry {
 	r.Add("uuid", &u, func(s string) bool { return strfmt.Default.Validates("uuid", s) })
 	return r
 }()
+
+// values of types outside the modelled kinds; the model knows of each only which one it is and whether it is the zero value
+// of its type (what reflect.Zero of the type is deeply equal to). Different entries are never deeply equal.
+var opaqueValues = []struct {
+	v    interface{}
+	zero bool
+}{
+	{complex128(0), true}, {complex(1, 2), false}, {(chan int)(nil), true}, {(func())(nil), true},
+	{struct{}{}, true}, {struct{ A int }{A: 1}, false}, {time.Time{}, true},
+	{time.Time{}.In(time.FixedZone("verif", 3600)), false}, // its IsZero method answers true; it is not the zero value
+	{[2]int{}, true}, {[2]int{0, 1}, false},
+	{&time.Time{}, false}, // a non-nil pointer
+	{struct{ A int }{}, true},
+}
 
 func unhex(s string) string { b, _ := hex.DecodeString(s); return string(b) }
 func tohex(s string) string { return hex.EncodeToString([]byte(s)) }
@@ -138,6 +153,12 @@ func (h *hv) build(e *henc) (interface{}, string) {
 	case "nilptr":
 		var p *int
 		return p, "(9 1)"
+	case "opaque":
+		i, _ := strconv.Atoi(h.V)
+		if i < 0 || i >= len(opaqueValues) {
+			i = 0
+		}
+		return opaqueValues[i].v, fmt.Sprintf("(10 %d %d)", i, b2i(opaqueValues[i].zero))
 	default:
 		t, ok := kindTypes[h.K]
 		if !ok {
@@ -435,6 +456,9 @@ func (g *hgen) value(depth int) hv {
 	case k < 6:
 		return g.scalar()
 	case k == 6:
+		if g.rng.Intn(3) == 0 {
+			return hv{K: "opaque", V: strconv.Itoa(g.rng.Intn(len(opaqueValues)))}
+		}
 		return hv{K: g.pick([]string{"nil", "nilptr", "ptr", "nilmap"})}
 	case k < 10:
 		e := g.pick([]string{"iface", "iface", "string", "int", "int64", "float64", "uint8", "ptrint"})
